@@ -21,7 +21,7 @@ use crate::tape::{hash_str, mix};
 pub const VERIF_DIR: &str = "/verif";
 /// Bumped whenever a generator changes the meaning of tapes (stored reproducers / regression inputs
 /// then have to be regenerated: `regen_reproducers.py`, `make_seed_regressions.sh`).
-pub const GEN_VERSION: u32 = 8;
+pub const GEN_VERSION: u32 = 9;
 
 #[derive(Clone, Debug, PartialEq, Eq)]
 pub struct Input {
@@ -137,6 +137,9 @@ pub struct Exhaustive {
     pub truncated: u64,
 }
 
+/// Name of the binary running this engine (`vtrace` sets it; default `vcheck`).
+pub static HARNESS: std::sync::OnceLock<&'static str> = std::sync::OnceLock::new();
+
 pub trait Property {
     fn id(&self) -> &'static str;
     /// How cases are generated and what makes one non-trivial.
@@ -146,6 +149,11 @@ pub trait Property {
     }
     /// (len of tape a, len of tape b)
     fn tape_lens(&self, tier: Tier) -> (usize, usize);
+    /// Directory name under `regressions/` and `property` key in known_findings.json for this
+    /// property's saved inputs (differs from `id` for a second harness serving the same property).
+    fn saved_id(&self) -> &'static str {
+        self.id()
+    }
     fn cases(&self, tier: Tier) -> u64;
     fn run(&self, input: &Input, ctx: &Ctx) -> CaseOut;
     /// Labels whose frequency must be at least the given fraction of all evaluations,
@@ -484,6 +492,8 @@ fn write_replay(id: &str, sig: &str, msg: &str, input: &Value, decoded: &Value, 
     let body = json!({
         "property": id, "signature": sig, "message": msg, "input": input, "decoded": decoded,
         "origin": origin, "gen_version": GEN_VERSION,
+        // which binary decodes this input (`vcheck`, or `vtrace` for the tracing build)
+        "harness": HARNESS.get().copied().unwrap_or("vcheck"),
         // C19's generated zoo is a build-time input: `./check --replay` rebuilds with this seed
         "zoo_seed": crate::func::zoo2::ZOO2_SEED,
         "replay": format!("./check {id} --replay <this file>"),
@@ -502,9 +512,10 @@ fn run_saved(prop: &dyn Property, tier: Tier) -> (Vec<String>, Vec<(Violation, V
     let mut n = 0u64;
     let mut herr = vec![];
     let id = prop.id();
-    let known = known_sigs(id);
+    let sid = prop.saved_id();
+    let known = known_sigs(sid);
     // 1. known findings: reproducer must still fail with the listed signature -> KNOWN-FINDING line.
-    for f in load_findings().into_iter().filter(|f| f.property == id) {
+    for f in load_findings().into_iter().filter(|f| f.property == sid) {
         let Some(input) = &f.reproducer else {
             if f.kind == "known" {
                 lines.push(format!("KNOWN-FINDING: property={id} {} ({}) [no reproducer stored]", f.signature, f.what));
@@ -551,7 +562,7 @@ fn run_saved(prop: &dyn Property, tier: Tier) -> (Vec<String>, Vec<(Violation, V
         }
     }
     // 2. regressions
-    let dir = Path::new(VERIF_DIR).join("regressions").join(id);
+    let dir = Path::new(VERIF_DIR).join("regressions").join(sid);
     if let Ok(rd) = std::fs::read_dir(&dir) {
         let mut files: Vec<_> = rd.filter_map(Result::ok).map(|e| e.path()).filter(|p| p.extension().is_some_and(|e| e == "json")).collect();
         files.sort();
@@ -768,6 +779,15 @@ pub fn parent(prop: &dyn Property, tier: Tier, seed: u64) -> i32 {
             coverage["fuzz_campaign"] = v;
         }
     }
+    if let Ok(p) = std::env::var("VLAB_TRACING_STATS") {
+        if let Some(v) = std::fs::read_to_string(&p).ok().and_then(|s| serde_json::from_str::<Value>(&s).ok()) {
+            coverage["tracing_build_campaign"] = json!({
+                "what": "same property judged on the crate built with feature `tracing` (vtrace: Cucumber::run + init_tracing(), one process per case, callbacks leaving child spans alive)",
+                "evaluations": v["coverage"]["evaluations"], "distinct_nontrivial": v["coverage"]["distinct_nontrivial"], "labels": v["coverage"]["labels"],
+                "violations": v["violations"], "exit": v["exit"], "wall_s": v["wall_s"],
+            });
+        }
+    }
     if let Ok(p) = std::env::var("VLAB_ZOO_SWEEP") {
         if let Some(v) = std::fs::read_to_string(&p).ok().and_then(|s| serde_json::from_str::<Value>(&s).ok()) {
             coverage["generated_zoo_sweep"] = v;
@@ -784,9 +804,15 @@ pub fn parent(prop: &dyn Property, tier: Tier, seed: u64) -> i32 {
         "violations": failures.len(),
         "exit": exit,
     });
-    let dir = Path::new(VERIF_DIR).join("evidence");
-    let _ = std::fs::create_dir_all(&dir);
-    std::fs::write(dir.join(format!("{id}.json")), serde_json::to_string_pretty(&ev).unwrap()).expect("write evidence");
+    if let Ok(out) = std::env::var("VLAB_STATS_OUT") {
+        // a second campaign for the same property (see /verif/check): its record is merged into the
+        // evidence file by the main campaign instead of overwriting it
+        std::fs::write(out, serde_json::to_string_pretty(&ev).unwrap()).expect("write campaign record");
+    } else {
+        let dir = Path::new(VERIF_DIR).join("evidence");
+        let _ = std::fs::create_dir_all(&dir);
+        std::fs::write(dir.join(format!("{id}.json")), serde_json::to_string_pretty(&ev).unwrap()).expect("write evidence");
+    }
     println!(
         "{id} {}: evaluations={evaluations} distinct_nontrivial={} excluded_known={excluded} known_hits={} wall={:.1}s exit={exit}",
         tier.name(),
